@@ -135,9 +135,11 @@ func VerifC14Namespace() {
 		case 2: // RENAME name -> other
 			other := c14Names[vsymChoice("newName", len(c14Names))]
 			err := st.Rename(ctx, name, other)
+			malformed := strings.HasPrefix(other, "/") || strings.Contains(other, "//")
+			other = strings.TrimSuffix(other, "/") // as for CREATE a trailing delimiter is dropped
 			below := strings.HasPrefix(other, name+"/")
-			if !ref.names[name] || ref.names[other] || below {
-				vsymAssert(err != nil, "RENAME from a missing name, onto an existing name or below itself is refused")
+			if !ref.names[name] || ref.names[other] || below || malformed || other == "" {
+				vsymAssert(err != nil, "RENAME from a missing name, onto an existing or ill-formed name or below itself is refused")
 			}
 			if err == nil {
 				for _, s := range c14Superiors(other) {
@@ -207,6 +209,27 @@ func VerifC14Namespace() {
 			vsymAssert(b.Subscribed == ref.subs[b.Name], "subscription state as in the reference model")
 		}
 		vsymAssert(cnt == len(ref.names), "the index holds exactly the mailboxes of the reference model (names unique)")
+		// LSUB "" "*": exactly the subscribed names; \Noselect iff the name has no mailbox (any more)
+		if vsymParam("lsub") == 1 {
+			var got map[string]Match
+			err := st.List(ctx, "", "*", true, func(m map[string]Match) error { got = m; return nil })
+			vsymAssert(err == nil, "LSUB succeeds")
+			if err == nil {
+				n := 0
+				for nm, sub := range ref.subs {
+					if !sub {
+						continue
+					}
+					n++
+					m, in := got[nm]
+					vsymAssert(in, "a subscribed name is returned by LSUB *")
+					if in {
+						vsymAssert(m.Atts.Contains(imap.AttrNoSelect) == !ref.names[nm], "LSUB: \\Noselect exactly when the subscribed name has no mailbox")
+					}
+				}
+				vsymAssert(len(got) == n, "LSUB * returns nothing but the subscribed names")
+			}
+		}
 	}
 }
 
